@@ -410,6 +410,42 @@ def proto7 : Proto where
   isAccept := P7.isAccept
 
 
+/-! ## A timed fair suffix (C02 c over two full connections)
+
+One round: the clock advances by one retransmission interval and both sides tick, it advances by one
+send interval and both sides tick again (every tick happens at or after the deadline `needs_tick`
+reported — a tick before its deadline does nothing); then the datagrams `a` emitted by its two ticks
+are delivered to `b` once, in order, then those `b` emitted by its two ticks to `a`.  Datagrams emitted
+*while a delivery is processed* (the resend answering a resend request) are not delivered. -/
+
+def deliverRange {P : Proto} (to : Side) (lo hi : Nat) (alt : P.Alt) : List (Move P) :=
+  (List.range' lo (hi - lo)).map fun i => .deliver to i [] alt
+
+def tickMoves {P : Proto} : List (Move P) :=
+  [.advance resendUs, .call .a [] .tick, .call .b [] .tick, .advance sendUs, .call .a [] .tick, .call .b [] .tick]
+
+def timedRound {P : Proto} (alt : P.Alt) (w : World P) : Option (World P) :=
+  match run w tickMoves with
+  | none => none
+  | some w1 =>
+    match run w1 (deliverRange .b w.a.out.length w1.a.out.length alt) with
+    | none => none
+    | some w2 => run w2 (deliverRange .a w.b.out.length w1.b.out.length alt)
+
+def timedRounds {P : Proto} (alt : P.Alt) : Nat → World P → Option (World P)
+  | 0, w => some w
+  | k + 1, w =>
+    match timedRound alt w with
+    | none => none
+    | some w1 => timedRounds alt k w1
+
+/-- both sides online; everything submitted has been handed over, nothing is unacknowledged or queued
+and no resend is requested -/
+def World.quiescent {P : Proto} (w : World P) : Prop :=
+  w.b.deliveredVital = w.a.submittedVital ∧ w.a.deliveredVital = w.b.submittedVital ∧
+  ∀ s, ∃ o, P.online (w.get s).conn = some o ∧ o.resendQueue = [] ∧ o.packet.chunks = [] ∧
+    o.requestResend = false
+
 /-! ## 0.6: an accepting side created by `Connection::new_accept_token`
 
 The handshake was answered by a stateless listener: the accepting connection object `b` starts
@@ -454,6 +490,19 @@ def summary {P : Proto} (w : World P) : List (List Bytes) × Nat :=
 /-- `new_accept_token`: the client connects, the listener's `ConnectAccept` reaches it, then traffic -/
 def demoAccept6 : List (Move (proto6 false)) :=
   [.call .a [] .connect, .deliver .a 0 [] .exact] ++ traffic (proto6 false) .exact 2 1
+
+/-- `World.quiescent` as a computable check -/
+def World.settled {P : Proto} (w : World P) : Bool :=
+  w.b.deliveredVital == w.a.submittedVital && w.a.deliveredVital == w.b.submittedVital &&
+  [Side.a, Side.b].all fun s => match P.online (w.get s).conn with
+    | some o => o.resendQueue.isEmpty && o.packet.chunks.isEmpty && !o.requestResend
+    | none => false
+
+/-- the demo traffic plus one more vital chunk each way, not yet flushed: both sides online, not settled -/
+def busy6 (tokenless : Bool) : List (Move (proto6 tokenless)) :=
+  demo6 tokenless ++ [.call .a [] (.send [5] true), .call .b [] (.send [6] true)]
+
+def busy7 : List (Move proto7) := demo7 ++ [.call .a [] (.send [5] true), .call .b [] (.send [6] true)]
 
 /-! ## The online cores alone (first stage of the development, kept as a self-contained result)
 
